@@ -105,19 +105,42 @@ emit(ok)
 	}
 }
 
-// a pending close disables the tail call: the handler runs after the callee
+// a pending close disables the tail call: the handler runs after the callee,
+// wherever in the function's nested scopes the return statement sits
+var vhTailShapes = [6]string{
+	`return g(n)`,
+	`if n == n then return g(n) end`,
+	`local y = 1
+  return g(n)`,
+	`do return g(n) end`,
+	`for i = 1, 1 do
+    local b <close> = mk()
+    if i == 1 then return g(n) end
+  end`,
+	`while true do
+    local y = n
+    do return g(y) end
+  end`,
+}
+
 func VerifH_C10_close_disables_tail_call() {
 	run := vhNewRun()
 	n := nondetInt64("n")
+	shape := verifChoose("shape", 6)
 	_, err := run.lua(`
 local n = ...
 local function g(x) emit("g", x) return x end
+local function mk() return setmetatable({}, {__close = function() emit("closed") end}) end
 local function f()
-  local a <close> = setmetatable({}, {__close = function() emit("closed") end})
-  return g(n)
+  local a <close> = mk()
+  `+vhTailShapes[shape]+`
 end
 emit(f())
 `, vhInt(n))
 	verifAssert(err == nil, "chunk-runs")
+	if shape == 4 {
+		verifAssert(vhTraceIs(run.trace, vhStr("g"), vhInt(n), vhStr("closed"), vhStr("closed"), vhInt(n)), "both-handlers-run-after-the-called-function-returns")
+		return
+	}
 	verifAssert(vhTraceIs(run.trace, vhStr("g"), vhInt(n), vhStr("closed"), vhInt(n)), "handler-runs-after-the-called-function-returns")
 }
